@@ -304,3 +304,9 @@ fn connect_graph<T: FloatT>(L: &mut CscMatrix<T>) {
         }
     }
 }
+
+/// symbolic factor and ordering of an aggregate sparsity mask (verification hook)
+#[cfg(clarabel_verif)]
+pub(crate) fn verif_find_graph(nz_mask: &[bool]) -> (CscMatrix<f64>, Vec<usize>) {
+    find_graph(nz_mask)
+}
